@@ -275,6 +275,29 @@ def _eval_pre(eng, c, fn, params, pre_state):
 
 
 # ------------------------------------------------------------------------------------------
+def _checked(s, timeout_ms):
+    """solver.check() with a hard wall-clock stop: z3's own timeout is not honoured in every phase."""
+    import threading
+    ctx = z3.main_ctx()
+
+    def stop():
+        try:
+            ctx.interrupt()
+        except Exception:
+            pass
+    t = threading.Timer(timeout_ms / 1000.0 + 2.0, stop)
+    t.daemon = True
+    t.start()
+    try:
+        try:
+            r = s.check()
+        except z3.Z3Exception:
+            r = z3.unknown
+    finally:
+        t.cancel()
+    return r
+
+
 def solve(o, timeout_ms=6000, dump_dir=None, want_model=True, eng=None, expect_fail=False):
     """Discharge one obligation.
 
@@ -295,13 +318,14 @@ def solve(o, timeout_ms=6000, dump_dir=None, want_model=True, eng=None, expect_f
     # --- 1. ground
     ground = axioms.ground_unfold(eng, list(o.facts) + [o.goal], depth=3) if eng is not None else []
     s = z3.Solver()
-    s.set("timeout", min(timeout_ms, 1500))
+    _to = min(timeout_ms, 1500)
+    s.set("timeout", _to)
     for f in o.facts:
         s.add(f)
     for f in ground + nonspec:
         s.add(f)
     s.add(z3.Not(o.goal))
-    r = s.check()
+    r = _checked(s, _to)
     if r == z3.unsat:
         o.result, o.solver, o.time = "discharged", "z3-ground", time.time() - t0
         _dump(o, s, dump_dir)
@@ -317,14 +341,15 @@ def solve(o, timeout_ms=6000, dump_dir=None, want_model=True, eng=None, expect_f
     # --- 2. quantified
     if not (expect_fail and (o.model is not None or ground_sat)):
         s = z3.Solver()
-        s.set("timeout", min(timeout_ms, 2500) if (expect_fail or o.model is not None) else timeout_ms)
+        _to = min(timeout_ms, 2500) if (expect_fail or o.model is not None) else timeout_ms
+        s.set("timeout", _to)
         for f in o.facts:
             s.add(f)
         for f in extra:
             s.add(f)
         s.add(z3.Not(o.goal))
         _dump(o, s, dump_dir)
-        r = s.check()
+        r = _checked(s, _to)
         if r == z3.unsat:
             o.result, o.solver, o.time = "discharged", "z3-quant", time.time() - t0
             o.model = None
@@ -336,13 +361,14 @@ def solve(o, timeout_ms=6000, dump_dir=None, want_model=True, eng=None, expect_f
     if not ground_sat and not expect_fail:
         # the short ground attempt was inconclusive: give it the full budget once
         s = z3.Solver()
-        s.set("timeout", timeout_ms)
+        _to = timeout_ms
+        s.set("timeout", _to)
         for f in o.facts:
             s.add(f)
         for f in ground + nonspec:
             s.add(f)
         s.add(z3.Not(o.goal))
-        r = s.check()
+        r = _checked(s, _to)
         if r == z3.unsat:
             o.result, o.solver, o.time = "discharged", "z3-ground", time.time() - t0
             o.model = None
